@@ -2,6 +2,7 @@ package c15
 
 import (
 	"fmt"
+	"math"
 	"math/rand"
 	"strings"
 
@@ -300,6 +301,20 @@ func runRandom(c *vp.Child) {
 		}
 		for _, s := range []string{"", "a", "ab", "aab(a)b", "a(b)a a1%z", "]a-^b$", "aaaa", "((a))(", "abcabc", " \t\n"} {
 			one(p, s, "catalogue")
+		}
+	}
+	// start positions at the ends of the integer range
+	for i, p := range catalogue {
+		if !c.Mine(i) {
+			continue
+		}
+		for _, s := range []string{"", "aab(a)b"} {
+			for _, init := range []int64{math.MinInt64, math.MinInt64 + 1, -1 << 31, -1 << 32, 1 << 31, 1 << 32, 1 << 53, math.MaxInt64 - 1, math.MaxInt64} {
+				c.Begin(fmt.Sprintf("extreme init %d %s %s", init, q(p), q(s)), p+"\n"+s)
+				d.report(d.run(lcase{op: "fm", p: p, s: s, lo: init, hi: init}))
+				d.report(d.run(lcase{op: "gmatch", p: p, s: s, hasInit: true, init: init}))
+				c.Eval(3)
+			}
 		}
 	}
 	// the class tables, byte by byte
